@@ -8,6 +8,7 @@
 //! same for many run indices and appends one JSON line per run to FILE.
 
 mod e1;
+mod driver;
 mod e2;
 mod handlers;
 mod model;
